@@ -283,6 +283,16 @@ pub fn replace_lifetime(ty: &mut Type) {
 
             r.lifetime = Some(Lifetime::new("'s", span));
         }
+        Type::TraitObject(object) => {
+            // `dyn Trait + 'a`: the bound names the enum's lifetime as well
+            for bound in &mut object.bounds {
+                if let syn::TypeParamBound::Lifetime(lt) = bound {
+                    if lt.ident != "static" {
+                        *lt = Lifetime::new("'s", lt.span());
+                    }
+                }
+            }
+        }
         _ => (),
     }
 }
